@@ -163,13 +163,17 @@ var seedExpectations = []seedExpect{
 	{"local-const-shadow", "C08", "lookup.innerfirst", "evalConstantIdent"},
 	{"local-const-shadow", "C11", "lookup.innerfirst", "evalConstantIdent"},
 	{"spirv-restrict-ones-type", "C02", "constcomposite.component", "emitImageLoadRestrict"},
+	{"global-init-dropped", "C09", "phase.stalehandles", "moduleConstants"},
+	{"negative-literal-unary", "C09", "phase.stalehandles", "evalConstantIdent"},
+	{"constructor-init-silent", "C09", "eval.silentdefault", "buildGlobalExpressions"},
+	{"attribute-silent-default", "C17", "eval.silentdefault", "collectBinding"},
 	{"glsl-vector-select", "C05", "select.condshape", "writeSelect"},
 	{"glsl-image-atomic-coord", "C05", "image.coordbuilder", "writeImageAtomic"},
 	{"glsl-shallow-feature-scan", "C05", "walker.shallow", "scanStatementsForFeatures"},
 	{"glsl-nested-switch-continue", "C05", "continue.forwardnest", "writeSwitch"},
-	{"stale-type-tables", "C09", "phase.stalehandles", "buildGlobalExprFromAST"},
+	{"stale-type-tables", "C09", "phase.stalehandles", "findStructType"},
 	{"stale-type-tables", "C10", "phase.stalehandles", "coerceScalarToType"},
-	{"stale-type-tables", "C09", "handle.zerosentinel", "findScalarType"},
+	{"stale-type-tables", "C09", "handle.zerosentinel", "findColumnType"},
 }
 
 // overlayFromPatch materialises the files a unified diff touches, patches
